@@ -267,8 +267,16 @@ Definition run_validate (c : config) (d : doc) : bool :=
 Definition top_decodable (d : doc) : bool := match d with DObj _ | DNull => true | _ => false end.
 
 (* ValidateData and ValidateFile(any name not ending in .json): schema verdict, then the content check on the
-   decoded map; a nil receiver skips both, the no-op schema skips only the schema *)
+   decoded map; a nil receiver and the no-op schema skip both (the latter since fix 748fe15) *)
 Definition run_data (c : config) (d : doc) : bool :=
+  top_decodable d &&
+  match c with
+  | CfgSchema s => validate s d && contents_ok d
+  | CfgNop => true
+  | CfgNil => true
+  end.
+(* the code before fix 748fe15: the no-op schema skipped only the schema, not the content check *)
+Definition run_data_pinned_nop (c : config) (d : doc) : bool :=
   top_decodable d &&
   match c with
   | CfgSchema s => validate s d && contents_ok d
